@@ -166,6 +166,8 @@ def capture_used(rec: dict):
         rec["plan"] = plan
         r = orig_t4(ctx, state, t1, t2, plan, utter)
         rec["t4_obj"] = r
+        # the approved list AS RETURNED by the meta-filter (a copy: later in-place edits of the result are visible by comparison)
+        rec["approved_at_filter"] = list(getattr(r, "approved_deltas", []) or [])
         return r
 
     # stage wrappers on the orchestrator module (the lookup surface run_turn uses): results are captured even when the
